@@ -46,6 +46,7 @@ writeable test, memo of argument-dependent fits) must violate the invariants.
 
 import collections
 import concurrent.futures
+import json
 import os
 import random
 
@@ -102,7 +103,7 @@ def plan(tier, seed):
         jobs['cache'] = ('ApplyCache', dict(cfg='ApplyCache_thorough.cfg', coverage=True, workers=1, timeout=1500), True)
         jobs['locate'] = ('Locate', dict(cfg='Locate_thorough.cfg', coverage=True, workers=8, timeout=1500, heap='8g'), True)
         jobs['locate-wide'] = ('Locate', dict(cfg='Locate_wide.cfg', workers=4, timeout=1500), True)
-    nc, nl = (240, 90) if tier == 'quick' else (3000, 1200)
+    nc, nl = (240, 70) if tier == 'quick' else (3000, 800)
     jobs['cache-sim'] = ('ApplyCache', dict(cfg='ApplyCache_sim.cfg', simulate=dict(num=nc), depth=13, seed=seed, workers=1, timeout=800), False)
     jobs['locate-sim'] = ('Locate', dict(cfg='Locate_sim.cfg', simulate=dict(num=nl), depth=4, seed=seed, workers=1, timeout=800), False)
     for tog in ([CACHE_TOGGLES[seed % len(CACHE_TOGGLES)]] if tier == 'quick' else CACHE_TOGGLES):
@@ -363,7 +364,11 @@ def _replay_locate(rep, results):
         for c in b['hist']:
             if len(c['m']['s']) == 2 and c['m'] not in c11_trace.ARGVALS_2D:
                 raise RuntimeError('Locate.tla ArgVals(2) and c11_trace.ARGVALS_2D differ: {}'.format(c['m']))
+    relevant = sorted(results['locate'].emitted, key=lambda b: json.dumps(b, sort_keys=True))
+    if not relevant:
+        raise RuntimeError('Locate: the exhaustive run emitted no memo-relevant history')
     jobs = c11_locate.jobs_for(behaviours, rep.seed)
+    jobs += [dict(beh=b, variant=('struct', 'groups')[(n + rep.seed) % 4 == 3], kw=('tol', 'eps')[n % 2]) for n, b in enumerate(relevant)]
     outs = exprs.pmap(c11_locate.replay, jobs, chunksize=2)
     stats = collections.Counter()
     for job, out in zip(jobs, outs):
@@ -381,6 +386,6 @@ def _replay_locate(rep, results):
             rep.traces += 1
     if not stats['located'] or not stats['raised'] or not stats['memo'] or not stats['ties']:
         raise RuntimeError('Locate replay is vacuous: {}'.format(dict(stats)))
-    rep.extra['locate_replay'] = dict(stats, behaviours=len(behaviours))
+    rep.extra['locate_replay'] = dict(stats, random_histories=len(behaviours), memo_relevant_histories=len(relevant))
     b = behaviours[0]
     rep.sample(dict(locate_behaviour=dict(topo=b['topo']['id'], calls=[dict(g=c['g'], m=c['m'], targets=c['ts'], raised=c['raised'], path=c['path']) for c in b['hist']])))
